@@ -13,6 +13,15 @@
  * path and value bytes it saw.  Every copy is verified again at each later
  * event and after the parse, then released; the stack model of open sections
  * (c08_rec.c) and the callback bound run as in the C leg.
+ *
+ * Third driver: mpt::layout, the consumer of the parser inside mpt++ that
+ * owns a target (open(file) / load(): config_parser -> parser::read ->
+ * mpt_parse_config, then the items of the layout are replaced).  Histories of
+ * 3..5 loads of generated layout files - good ones and ones of every failure
+ * class - on one layout object: after a load whose text the parser rejects
+ * (decided by an independent config_parser::read of the same text) load() is
+ * false and items, graphs, alias and font are what they were; after a good
+ * generated file load() is true and the items are the ones of the file.
  */
 #include <cstdlib>
 #include <cstring>
@@ -24,6 +33,10 @@
 #include "types.h"
 #include "meta.h"
 #include "parse.h"
+#include "layout.h"
+
+#include <string>
+#include <unistd.h>
 
 #include "c08_gen.h"
 #include "c08_rec.h"
@@ -269,6 +282,220 @@ static void drive_keep(const c08_case &c, vf_rng *r, const char *desc)
 	vf_xfree(in.d, in.n);
 }
 
+/* ------------------------------------------------------------ mpt::layout */
+struct laydoc {
+	std::string text;
+	std::vector<std::string> items;   /* names of the top-level items, in order */
+	size_t graphs;
+	const char *cls;                  /* "good" or the way it was broken */
+	const char *cnt_rej, *cnt_acc;    /* counters of the class */
+	bool generated_good;
+};
+static void lay_good(vf_rng *r, laydoc &d, int serial)
+{
+	static const char *const types[] = { "graph", "world", "text", "line", "axis", "xaxis", "yaxis" };
+	static const char *const props[] = { "title = X", "color = red", "pos = 0.25 0.25", "value = hello world", "x1 = 0", "width = 2", "exp = 3" };
+	char buf[96];
+	int n = vf_range(r, 1, 6);
+	d.text.clear(); d.items.clear(); d.graphs = 0;
+	d.cls = "good"; d.generated_good = true;
+	d.cnt_rej = "layout-text:good:rejected"; d.cnt_acc = "layout-text:good:accepted";
+	if (vf_chance(r, 1, 2)) { snprintf(buf, sizeof(buf), "name = lay%d;\n", serial); d.text += buf; }
+	if (vf_chance(r, 1, 4)) d.text += "# a comment line\n";
+	for (int i = 0; i < n; i++) {
+		const char *t = types[vf_below(r, 7)];
+		snprintf(buf, sizeof(buf), "%c%d_%d", t[0], serial, i);
+		d.items.push_back(buf);
+		if (!strcmp(t, "graph")) d.graphs++;
+		d.text += t; d.text += ' '; d.text += buf;
+		d.text += vf_chance(r, 1, 2) ? " {\n" : "{";
+		for (int k = vf_range(r, 0, 3); k > 0; k--) {
+			d.text += vf_chance(r, 1, 2) ? "    " : " ";
+			d.text += props[vf_below(r, 7)];
+			d.text += vf_chance(r, 1, 3) ? " ;\n" : ";\n";
+		}
+		if (!strcmp(t, "graph") && vf_chance(r, 1, 2)) {
+			snprintf(buf, sizeof(buf), "    line l%d_%d {\n        x1 = 0;\n    }\n", serial, i);
+			d.text += buf;
+		}
+		d.text += vf_chance(r, 1, 2) ? "}\n" : "} ";
+	}
+}
+static void lay_break(vf_rng *r, laydoc &d, const c08_case &c)
+{
+	size_t pos;
+	d.generated_good = false;
+	switch (vf_below(r, 9)) {
+	case 0:
+		d.cls = "unclosed section"; d.cnt_rej = "layout-text:unclosed-section:rejected"; d.cnt_acc = "layout-text:unclosed-section:accepted";
+		if ((pos = d.text.rfind('}')) != std::string::npos) d.text.erase(pos);
+		break;
+	case 1:
+		d.cls = "stray section end"; d.cnt_rej = "layout-text:stray-section-end:rejected"; d.cnt_acc = "layout-text:stray-section-end:accepted";
+		d.text += "}\n";
+		break;
+	case 2:
+		d.cls = "unterminated option"; d.cnt_rej = "layout-text:unterminated-option:rejected"; d.cnt_acc = "layout-text:unterminated-option:accepted";
+		d.text += "tail = 1";
+		break;
+	case 3:
+		d.cls = "option name starts with digit"; d.cnt_rej = "layout-text:digit-option-name:rejected"; d.cnt_acc = "layout-text:digit-option-name:accepted";
+		if ((pos = d.text.find('{')) != std::string::npos) d.text.insert(pos + 1, " 9x = 1; ");
+		else d.text += "9x = 1;";
+		break;
+	case 4:
+		d.cls = "section without name"; d.cnt_rej = "layout-text:nameless-section:rejected"; d.cnt_acc = "layout-text:nameless-section:accepted";
+		d.text.insert(vf_chance(r, 1, 2) ? 0 : d.text.size(), "{ a = 1; }\n");
+		break;
+	case 5:
+		d.cls = "unterminated quote"; d.cnt_rej = "layout-text:unterminated-quote:rejected"; d.cnt_acc = "layout-text:unterminated-quote:accepted";
+		d.text += "v = \"abc;\n";
+		break;
+	case 6:
+		d.cls = "special character in option name"; d.cnt_rej = "layout-text:special-option-name:rejected"; d.cnt_acc = "layout-text:special-option-name:accepted";
+		d.text += "a-b = 1;\n";
+		break;
+	case 7:
+		d.cls = "cut"; d.cnt_rej = "layout-text:cut:rejected"; d.cnt_acc = "layout-text:cut:accepted";
+		d.text.erase(vf_below(r, (uint32_t) d.text.size() + 1));
+		break;
+	default:
+		d.cls = "generator document"; d.cnt_rej = "layout-text:generator-document:rejected"; d.cnt_acc = "layout-text:generator-document:accepted";
+		d.text.assign(reinterpret_cast<const char *>(c.doc), c.len > 4000 ? 4000 : c.len);
+	}
+}
+struct laysnap {
+	std::vector<std::string> names;
+	std::vector<const void *> inst;
+	std::vector<std::string> gnames;
+	std::vector<const void *> ginst;
+	std::string alias, font;
+	bool operator==(const laysnap &o) const
+	{
+		return names == o.names && inst == o.inst && gnames == o.gnames && ginst == o.ginst && alias == o.alias && font == o.font;
+	}
+};
+static void lay_snap(const layout &lay, laysnap &s)
+{
+	s.names.clear(); s.inst.clear(); s.gnames.clear(); s.ginst.clear();
+	for (const auto &it : lay.items()) {
+		const char *n = it.name();
+		s.names.push_back(n ? n : "");
+		s.inst.push_back(it.instance());
+	}
+	for (const auto &it : lay.graphs()) {
+		const char *n = it.name();
+		s.gnames.push_back(n ? n : "");
+		s.ginst.push_back(it.instance());
+	}
+	s.alias = lay.alias() ? lay.alias() : "(none)";
+	s.font = lay.font() ? lay.font() : "(none)";
+}
+static std::string join(const std::vector<std::string> &v)
+{
+	std::string out;
+	for (size_t i = 0; i < v.size(); i++) { if (i) out += ' '; out += v[i]; }
+	return out;
+}
+static char layfile[64];
+
+static void drive_layout(const c08_case &c, vf_rng *r)
+{
+	layout lay;
+	int steps = vf_range(r, 3, 5);
+	int pattern = 0;                /* progress through good - rejected - good */
+	bool populated = false;
+	char esc[400];
+
+	if (!layfile[0]) snprintf(layfile, sizeof(layfile), "c08lay-%ld.lay", (long) getpid());
+	vf_count("layout:histories", 1);
+	for (int step = 0; step < steps; step++) {
+		laydoc d;
+		laysnap before, after;
+		feed in;
+		int predicted;
+		bool ok;
+		FILE *fp;
+
+		lay_good(r, d, step + 1);
+		if (step ? vf_chance(r, 1, 2) : vf_chance(r, 1, 5)) lay_break(r, d, c);
+		vf_fp(d.text.data(), d.text.size());
+
+		/* does the parser take the text?  independent read with the layout's format */
+		{
+			P p;
+			node tmp;
+			if (!p.set_format(layout::file_format())) vf_inconclusive("layout file format refused");
+			in.d = static_cast<uint8_t *>(vf_xalloc(d.text.size()));
+			memcpy(in.d, d.text.data(), d.text.size());
+			in.n = d.text.size(); in.pos = 0; in.calls = in.saves = in.after_end = 0;
+			in.err_at = NONE;
+			in.bound = 8 * ((uint64_t) in.n + 8);
+			p.source(h_getc, &in);
+			vf_at("parser::read");
+			predicted = p.read(tmp, 0);
+			vf_xfree(in.d, in.n);
+		}
+		if (!(fp = fopen(layfile, "wb")) || fwrite(d.text.data(), 1, d.text.size(), fp) != d.text.size() || fclose(fp)) {
+			vf_inconclusive("cannot write %s", layfile);
+		}
+		size_t o = 0;
+		for (size_t i = 0; i < d.text.size() && o + 5 < sizeof(esc); i++) {
+			unsigned char ch = (unsigned char) d.text[i];
+			if (ch == '\n') { esc[o++] = '\\'; esc[o++] = 'n'; }
+			else if (ch < 0x20 || ch >= 0x7f) o += (size_t) snprintf(esc + o, 5, "\\x%02x", ch);
+			else esc[o++] = (char) ch;
+		}
+		esc[o] = 0;
+
+		vf_count(predicted < 0 ? d.cnt_rej : d.cnt_acc, 1);
+		lay_snap(lay, before);
+		vf_at("layout::open");
+		vf_count("layout::open", 1);
+		ok = lay.open(layfile);
+		VF_CHECK(ok, "model:layout_load:open-failed", "step %d: layout::open(%s) failed", step + 1, layfile);
+		vf_log("L: step %d (%s, parser says %d), %zu items before: %s", step + 1, d.cls, predicted, before.names.size(), esc);
+		vf_at("layout::load");
+		vf_count("layout::load", 1);
+		ok = lay.load(0);
+		lay_snap(lay, after);
+		vf_log("L: = %d, %zu items, %zu graphs", (int) ok, after.names.size(), after.gnames.size());
+
+		if (predicted < 0) {
+			vf_count("layout:load-of-rejected-text", 1);
+			if (populated) vf_count("layout:rejected-text-on-populated-layout", 1);
+			VF_CHECK(!ok, "model:layout_load:parse-failure-accepted", "step %d (%s): the parser rejects the text (%d) but load() returned true; text: %s",
+			         step + 1, d.cls, predicted, esc);
+			if (!(before == after)) {
+				vf_fail("model:layout_load:changed-on-parse-failure",
+				        "step %d (%s): parser rejects the text (%d), load() returned false, but the layout changed: items [%s] -> [%s], graphs %zu -> %zu, alias %s -> %s; text: %s",
+				        step + 1, d.cls, predicted, join(before.names).c_str(), join(after.names).c_str(), before.gnames.size(), after.gnames.size(),
+				        before.alias.c_str(), after.alias.c_str(), esc);
+			}
+			vf_count("monitor:layout-unchanged-after-rejected-text", 1);
+			if (pattern == 1) pattern = 2;
+		}
+		else if (d.generated_good) {
+			VF_CHECK(ok, "model:layout_load:good-file-refused", "step %d: load() returned false for a generated layout file the parser accepts; text: %s", step + 1, esc);
+			if (after.names != d.items || after.gnames.size() != d.graphs) {
+				vf_fail("model:layout_load:items-after-good-load", "step %d: after a good load the layout holds items [%s] and %zu graphs, the file has [%s] and %zu graphs; text: %s",
+				        step + 1, join(after.names).c_str(), after.gnames.size(), join(d.items).c_str(), d.graphs, esc);
+			}
+			vf_count("monitor:layout-items-after-good-load", 1);
+			populated = !after.names.empty();
+			if (pattern == 0) pattern = 1;
+			else if (pattern == 2) { pattern = 3; vf_count("layout:history-good-rejected-good", 1); }
+		}
+		else {
+			/* broken on purpose but accepted by the parser: nothing stated about the result */
+			vf_count("layout:accepted-broken-text", 1);
+			populated = !after.names.empty();
+		}
+	}
+	unlink(layfile);
+	vf_nontrivial();
+}
+
 uint64_t vf_cases(void) { return vf_thorough ? 600000 : 60000; }
 
 void vf_case(uint64_t, vf_rng *r)
@@ -353,6 +580,7 @@ void vf_case(uint64_t, vf_rng *r)
 		}
 	}
 	if (c.known) drive_keep(c, r, desc);
+	if (vf_chance(r, 1, 2)) drive_layout(c, r);
 	vf_sample("%s", desc);
 	c08_case_free(&c);
 }
